@@ -53,7 +53,7 @@ func VerifyMSI(f io.ReaderAt, skipDigests bool) (*MSISignature, error) {
 	}
 	for _, item := range files {
 		name := item.Name()
-		if name == msiDigitalSignature {
+		if comdoc.SameName(name, msiDigitalSignature) {
 			r, err := cdf.ReadStream(item)
 			if err == nil {
 				sig, err = io.ReadAll(r)
@@ -61,7 +61,7 @@ func VerifyMSI(f io.ReaderAt, skipDigests bool) (*MSISignature, error) {
 			if err != nil {
 				return nil, err
 			}
-		} else if name == msiDigitalSignatureEx {
+		} else if comdoc.SameName(name, msiDigitalSignatureEx) {
 			r, err := cdf.ReadStream(item)
 			if err == nil {
 				exsig, err = io.ReadAll(r)
@@ -149,6 +149,13 @@ func PrehashMSI(cdf *comdoc.ComDoc, hash crypto.Hash) ([]byte, error) {
 	return d2.Sum(nil), nil
 }
 
+// The signature streams are found the way a compound file reader looks up
+// names, so that the stream InsertMSISignature replaces is the one left out
+// of the digest
+func isMsiSignatureName(name string) bool {
+	return comdoc.SameName(name, msiDigitalSignature) || comdoc.SameName(name, msiDigitalSignatureEx)
+}
+
 // Recursively hash a MSI directory (storage)
 func hashMsiDir(cdf *comdoc.ComDoc, parent *comdoc.DirEnt, d io.Writer) error {
 	files, err := cdf.ListDir(parent)
@@ -158,7 +165,7 @@ func hashMsiDir(cdf *comdoc.ComDoc, parent *comdoc.DirEnt, d io.Writer) error {
 	sortMsiFiles(files)
 	for _, item := range files {
 		name := item.Name()
-		if name == msiDigitalSignature || name == msiDigitalSignatureEx {
+		if isMsiSignatureName(name) {
 			continue
 		}
 		switch item.Type {
@@ -192,7 +199,7 @@ func prehashMsiDir(cdf *comdoc.ComDoc, parent *comdoc.DirEnt, d io.Writer) error
 	}
 	for _, item := range files {
 		name := item.Name()
-		if name == msiDigitalSignature || name == msiDigitalSignatureEx {
+		if isMsiSignatureName(name) {
 			continue
 		}
 		switch item.Type {
